@@ -106,6 +106,9 @@ impl ScProp {
                 p.raise = 400;
                 // error events are internal events too: two failing blocks in one microstep queue two of them
                 p.errors = 60;
+                // invokes that fail to start raise their error event when the macrostep ends: it is handled
+                // before the next external event
+                p.bad_invoke = 120;
                 p.eventless = 250;
                 p.selfsend = 150;
                 p.content = 800;
